@@ -95,11 +95,18 @@ func c01Scenarios(thorough bool) []c01Scenario {
 		if n == 4 && !thorough {
 			continue
 		}
-		for _, above := range []bool{false, true} {
-			n, above := n, above
+		for _, variant := range []int{0, 1, 2} {
+			n, above, top := n, variant >= 1, variant == 2
 			era := drive.EraStage(drive.StV202)
 			era.Name = "v202"
 			nm := fmt.Sprintf("staking-tie/%d-stakers/%s", n, map[bool]string{false: "below-cap", true: "above-cap"}[above])
+			// variant 2: the tied stakers are the TOP stakers (the funder keeps less than each of them), so the
+			// tie decides who receives the rounding dust of an oversubscribed payout
+			xbtEach, usdEach := uint64(1000000), uint64(50e8)
+			if top {
+				nm = fmt.Sprintf("staking-tie/%d-top-stakers/above-cap", n)
+				xbtEach, usdEach = 8000000/uint64(n), 2100e8/uint64(n)
+			}
 			out = append(out, c01Scenario{name: nm, era: era,
 				prefix: func(b *drive.Builder) {
 					FundStd(b)
@@ -107,7 +114,7 @@ func c01Scenarios(thorough bool) []c01Scenario {
 					b.Add(g(drive.BlockSpec{}))
 					var txs []kit.Tx
 					for i := 0; i < n; i++ {
-						txs = append(txs, kit.Transfer(A, "pXBT", 1000000, kit.Addr(800+i)), kit.Transfer(A, "pUSD", 50e8, kit.Addr(800+i)))
+						txs = append(txs, kit.Transfer(A, "pXBT", xbtEach, kit.Addr(800+i)), kit.Transfer(A, "pUSD", usdEach, kit.Addr(800+i)))
 					}
 					b.Add(g(drive.BlockSpec{TX: []fake.Entry{b.Tx(KA, txs...)}}))
 					for b.Next() < 431 {
